@@ -1,4 +1,5 @@
 import Xsm.Proofs.Done
+import Xsm.Proofs.Faults
 /-
 Helper definitions and lemmas for C13 (bounded self-feeding chains; `start()` / `send()` return).
 Everything is about the executable model (`Xsm/Model/Engine.lean`); nothing here changes it.
@@ -367,18 +368,21 @@ theorem chainPot_zero_lt (L cs d : Nat) (hcs : 0 < cs) : chainPot L 0 0 < chainP
   omega
 
 /-- the arithmetic of one iteration. `f = 1` iff the popped event is self-raised; `csr`/`extr` count
-    the rest of the queue; `d` is the counter before, primed values are after. -/
+    the rest of the queue; `d` is the counter before, primed values are after. Three shapes: the breaker
+    trips on a self-raised event (dropped, chain purged); the event is processed below the bound; the
+    breaker trips on an EXTERNAL event (`f = 0`), which is processed after the purge. -/
 theorem pot_arith (L f csr extr d cs' ext' d' : Nat) (hf : f ≤ 1) (hI : f + csr ≤ d) (hext : ext' = extr)
     (h : (L < d ∧ cs' = 0 ∧ d' = 0) ∨
-         (d ≤ L ∧ ∃ k, cs' = csr + k ∧ (d + k ≤ d' ∨ (cs' = 0 ∧ d' = 0)))) :
+         (d ≤ L ∧ ∃ k, cs' = csr + k ∧ (d + k ≤ d' ∨ (cs' = 0 ∧ d' = 0))) ∨
+         (L < d ∧ f = 0 ∧ cs' ≤ d')) :
     cs' ≤ d' ∧
       ext' * (L + 4) + chainPot L cs' d' < ((1 - f) + extr) * (L + 4) + chainPot L (f + csr) d := by
   subst hext
   constructor
-  · rcases h with ⟨_, h1, h2⟩ | ⟨_, k, h1, h2 | ⟨h2, h3⟩⟩ <;> omega
+  · rcases h with ⟨_, h1, h2⟩ | ⟨_, k, h1, h2 | ⟨h2, h3⟩⟩ | ⟨_, _, h3⟩ <;> omega
   · have hb := chainPot_le L cs' d'
     rcases Nat.le_one_iff_eq_zero_or_eq_one.1 hf with rfl | rfl
-    · -- an external event was popped
+    · -- an external event was popped: it pays `L + 4`, more than any chain part
       have : (1 - 0 + ext') * (L + 4) = (L + 4) + ext' * (L + 4) := by
         rw [Nat.sub_zero, Nat.add_mul, Nat.one_mul]
       rw [this]; omega
@@ -386,92 +390,137 @@ theorem pot_arith (L f csr extr d cs' ext' d' : Nat) (hf : f ≤ 1) (hI : f + cs
       have : (1 - 1 + ext') * (L + 4) = ext' * (L + 4) := by simp
       rw [this]
       apply Nat.add_lt_add_left
-      rcases h with ⟨_, h1, h2⟩ | ⟨hd, k, h1, h2 | ⟨h2, h3⟩⟩
+      rcases h with ⟨_, h1, h2⟩ | ⟨hd, k, h1, h2 | ⟨h2, h3⟩⟩ | ⟨_, h0, _⟩
       · subst h1 h2; exact chainPot_zero_lt L _ _ (by omega)
       · exact chainPot_lt L (1 + csr) d cs' d' k (by omega) hI hd (by omega) h2
       · rw [h2, h3]; exact chainPot_zero_lt L _ _ (by omega)
+      · omega
+
+/-- **what processing one event does to queue, counter and status** (`asyncProcess`: macrostep,
+    settling, error logging, end-of-chain test): self-flagged entries `l` are appended, each counted —
+    unless the counter is reset, which happens only when no self-raised event is queued any more.
+    While the machine keeps running the count is exact. -/
+theorem asyncProcess_cases (m : Machine) (u : UEnv) (e : Ev) (s0 : St) :
+    ∃ l, (∀ q ∈ l, q.self = true) ∧
+        (asyncProcess m u e s0).queue = s0.queue ++ l ∧
+        (s0.raiseDepth + l.length ≤ (asyncProcess m u e s0).raiseDepth ∨
+          (cntSelf (asyncProcess m u e s0).queue = 0 ∧ (asyncProcess m u e s0).raiseDepth = 0)) ∧
+        ((asyncProcess m u e s0).status = "running" →
+          (asyncProcess m u e s0).raiseDepth = s0.raiseDepth + l.length ∨ (asyncProcess m u e s0).raiseDepth = 0) ∧
+        ((asyncProcess m u e s0).status = s0.status ∨ (asyncProcess m u e s0).status = "done") := by
+  unfold asyncProcess
+  have G : Grow true (emit ("#recv:" ++ e.type) s0)
+      (transientLoop (hooksAsync u m) .async m u m.maxIterations
+        (processEvent (hooksAsync u m) .async m u e (emit ("#recv:" ++ e.type) s0))) :=
+    (processEvent_grow _ (hooksAsync_grow u m) .async m u e _).trans
+      (transientLoop_grow _ (hooksAsync_grow u m) .async m u _ _)
+  simp only
+  generalize (transientLoop (hooksAsync u m) .async m u m.maxIterations
+        (processEvent (hooksAsync u m) .async m u e (emit ("#recv:" ++ e.type) s0))) = s2 at G ⊢
+  obtain ⟨⟨l, hq, hl, hd, hx⟩, hs⟩ := G
+  have hq' : s2.queue = s0.queue ++ l := hq
+  have hc := (cntSelf_all_true hl).1
+  have hd' : s0.raiseDepth + l.length ≤ s2.raiseDepth := by
+    have hd2 : s0.raiseDepth + cntSelf l ≤ s2.raiseDepth := hd
+    omega
+  have hx' : s2.status = "running" → s2.raiseDepth = s0.raiseDepth + l.length := by
+    intro hr
+    have : s2.raiseDepth = s0.raiseDepth + cntSelf l := hx hr
+    omega
+  have hs' : s2.status = s0.status ∨ s2.status = "done" := hs
+  refine ⟨l, hl, ?_⟩
+  -- the failure handler touches neither queue, counter nor status
+  generalize hs3 : (if s2.err.isSome = true then { s2 with err := none, errors := s2.errors + 1 } else s2) = s3
+  have q3 : s3.queue = s2.queue := by rw [← hs3]; split <;> rfl
+  have d3 : s3.raiseDepth = s2.raiseDepth := by rw [← hs3]; split <;> rfl
+  have t3 : s3.status = s2.status := by rw [← hs3]; split <;> rfl
+  unfold asyncChainEnd
+  split
+  · rename_i hc
+    simp only [Bool.and_eq_true, Bool.not_eq_true', decide_eq_true_eq] at hc
+    exact ⟨q3.trans hq', Or.inr ⟨cntSelf_zero_of_any_false hc.2, rfl⟩, fun _ => Or.inr rfl, t3 ▸ hs'⟩
+  · exact ⟨q3.trans hq', Or.inl (d3 ▸ hd'), fun hr => Or.inl (d3 ▸ hx' (t3 ▸ hr)), t3 ▸ hs'⟩
 
 /-- **what one iteration of the run loop does to queue, counter and status.** Either the chain
-    breaker trips (counter above the bound: the popped event is dropped, every queued self-raised
-    event is purged, the counter is reset), or the event is processed: self-flagged entries `l` are
-    appended, each counted — unless the counter is reset, which happens only when no self-raised
-    event is queued any more. While the machine keeps running the count is exact. -/
-theorem asyncStep_cases (m : Machine) (u : UEnv) (e : Ev) (s0 : St) :
-    (m.maxIterations < s0.raiseDepth ∧
-        (asyncStep m u e s0).queue = s0.queue.filter (fun q => !q.self) ∧
-        (asyncStep m u e s0).raiseDepth = 0 ∧ (asyncStep m u e s0).status = s0.status) ∨
+    breaker trips on a SELF-RAISED event (counter above the bound: the popped event is dropped, every
+    queued self-raised event is purged, the counter is reset), or it trips on an EXTERNAL event (same
+    purge and reset, then the event is processed), or the event is processed as it is. -/
+theorem asyncStep_cases (m : Machine) (u : UEnv) (q : QEv) (s0 : St) :
+    (m.maxIterations < s0.raiseDepth ∧ q.self = true ∧
+        (asyncStep m u q s0).queue = s0.queue.filter (fun q => !q.self) ∧
+        (asyncStep m u q s0).raiseDepth = 0 ∧ (asyncStep m u q s0).status = s0.status) ∨
+    (m.maxIterations < s0.raiseDepth ∧ q.self = false ∧ ∃ l, (∀ q ∈ l, q.self = true) ∧
+        (asyncStep m u q s0).queue = s0.queue.filter (fun q => !q.self) ++ l ∧
+        (l.length ≤ (asyncStep m u q s0).raiseDepth ∨
+          (cntSelf (asyncStep m u q s0).queue = 0 ∧ (asyncStep m u q s0).raiseDepth = 0)) ∧
+        ((asyncStep m u q s0).status = "running" →
+          (asyncStep m u q s0).raiseDepth = l.length ∨ (asyncStep m u q s0).raiseDepth = 0) ∧
+        ((asyncStep m u q s0).status = s0.status ∨ (asyncStep m u q s0).status = "done")) ∨
     (s0.raiseDepth ≤ m.maxIterations ∧ ∃ l, (∀ q ∈ l, q.self = true) ∧
-        (asyncStep m u e s0).queue = s0.queue ++ l ∧
-        (s0.raiseDepth + l.length ≤ (asyncStep m u e s0).raiseDepth ∨
-          (cntSelf (asyncStep m u e s0).queue = 0 ∧ (asyncStep m u e s0).raiseDepth = 0)) ∧
-        ((asyncStep m u e s0).status = "running" →
-          (asyncStep m u e s0).raiseDepth = s0.raiseDepth + l.length ∨ (asyncStep m u e s0).raiseDepth = 0) ∧
-        ((asyncStep m u e s0).status = s0.status ∨ (asyncStep m u e s0).status = "done")) := by
+        (asyncStep m u q s0).queue = s0.queue ++ l ∧
+        (s0.raiseDepth + l.length ≤ (asyncStep m u q s0).raiseDepth ∨
+          (cntSelf (asyncStep m u q s0).queue = 0 ∧ (asyncStep m u q s0).raiseDepth = 0)) ∧
+        ((asyncStep m u q s0).status = "running" →
+          (asyncStep m u q s0).raiseDepth = s0.raiseDepth + l.length ∨ (asyncStep m u q s0).raiseDepth = 0) ∧
+        ((asyncStep m u q s0).status = s0.status ∨ (asyncStep m u q s0).status = "done")) := by
   unfold asyncStep
   split
   · rename_i h
-    exact Or.inl ⟨h, rfl, rfl, rfl⟩
+    cases hs : q.self with
+    | true => exact Or.inl ⟨h, rfl, rfl, rfl, rfl⟩
+    | false =>
+      right; left
+      refine ⟨h, rfl, ?_⟩
+      obtain ⟨l, hl, h1, h2, h3, h4⟩ := asyncProcess_cases m u q.ev (asyncPurge s0)
+      simp only [Bool.false_eq_true, if_false]
+      refine ⟨l, hl, h1, ?_, ?_, h4⟩
+      · rcases h2 with h2 | h2
+        · left; simpa [asyncPurge] using h2
+        · exact Or.inr h2
+      · intro hr; rcases h3 hr with h3 | h3
+        · left; simpa [asyncPurge] using h3
+        · exact Or.inr h3
   · rename_i h
-    right
-    refine ⟨by omega, ?_⟩
-    have G : Grow true (emit ("#recv:" ++ e.type) s0)
-        (transientLoop (hooksAsync u m) .async m u m.maxIterations
-          (processEvent (hooksAsync u m) .async m u e (emit ("#recv:" ++ e.type) s0))) :=
-      (processEvent_grow _ (hooksAsync_grow u m) .async m u e _).trans
-        (transientLoop_grow _ (hooksAsync_grow u m) .async m u _ _)
-    simp only
-    generalize (transientLoop (hooksAsync u m) .async m u m.maxIterations
-          (processEvent (hooksAsync u m) .async m u e (emit ("#recv:" ++ e.type) s0))) = s2 at G ⊢
-    obtain ⟨⟨l, hq, hl, hd, hx⟩, hs⟩ := G
-    have hq' : s2.queue = s0.queue ++ l := hq
-    have hc := (cntSelf_all_true hl).1
-    have hd' : s0.raiseDepth + l.length ≤ s2.raiseDepth := by
-      have hd2 : s0.raiseDepth + cntSelf l ≤ s2.raiseDepth := hd
-      omega
-    have hx' : s2.status = "running" → s2.raiseDepth = s0.raiseDepth + l.length := by
-      intro hr
-      have : s2.raiseDepth = s0.raiseDepth + cntSelf l := hx hr
-      omega
-    have hs' : s2.status = s0.status ∨ s2.status = "done" := hs
-    refine ⟨l, hl, ?_⟩
-    split
-    · exact ⟨hq', Or.inl hd', fun hr => Or.inl (hx' hr), hs'⟩
-    · split
-      · rename_i hc
-        simp only [Bool.and_eq_true, Bool.not_eq_true', decide_eq_true_eq] at hc
-        exact ⟨hq', Or.inr ⟨cntSelf_zero_of_any_false hc.2, rfl⟩, fun _ => Or.inr rfl, hs'⟩
-      · exact ⟨hq', Or.inl hd', fun hr => Or.inl (hx' hr), hs'⟩
+    right; right
+    exact ⟨by omega, asyncProcess_cases m u q.ev s0⟩
 
 /-- **(b) + (c): one iteration keeps the invariant and strictly decreases the measure**; the status
     is unchanged or became "done". `s` is the state before the event `q` is taken off the queue. -/
 theorem asyncStep_measure (m : Machine) (u : UEnv) (s : St) (q : QEv) (rest : List QEv)
     (hq : s.queue = q :: rest) (hI : AInv s) :
-    AInv (asyncStep m u q.ev { s with queue := rest }) ∧
-    potential m.maxIterations (asyncStep m u q.ev { s with queue := rest }) < potential m.maxIterations s ∧
-    ((asyncStep m u q.ev { s with queue := rest }).status = s.status ∨
-      (asyncStep m u q.ev { s with queue := rest }).status = "done") := by
-  have hc := asyncStep_cases m u q.ev { s with queue := rest }
-  generalize asyncStep m u q.ev { s with queue := rest } = s' at hc ⊢
+    AInv (asyncStep m u q { s with queue := rest }) ∧
+    potential m.maxIterations (asyncStep m u q { s with queue := rest }) < potential m.maxIterations s ∧
+    ((asyncStep m u q { s with queue := rest }).status = s.status ∨
+      (asyncStep m u q { s with queue := rest }).status = "done") := by
+  have hc := asyncStep_cases m u q { s with queue := rest }
+  generalize asyncStep m u q { s with queue := rest } = s' at hc ⊢
   simp only at hc
   have e1 : cntSelf s.queue = (if q.self then 1 else 0) + cntSelf rest := by rw [hq, cntSelf_cons]
   have e2 : cntExt s.queue = (1 - (if q.self then 1 else 0)) + cntExt rest := by
     rw [hq, cntExt_cons]; cases q.self <;> simp
   have hf : (if q.self then 1 else 0) ≤ 1 := by split <;> omega
+  have hf0 : q.self = false → (if q.self then 1 else 0) = 0 := by intro h; simp [h]
   unfold AInv at hI ⊢
   unfold potential
   rw [e1] at hI
   rw [e1, e2]
-  generalize (if q.self then 1 else 0) = f at hI hf ⊢
+  generalize (if q.self then 1 else 0) = f at hI hf hf0 ⊢
   have key : cntExt s'.queue = cntExt rest ∧
       ((m.maxIterations < s.raiseDepth ∧ cntSelf s'.queue = 0 ∧ s'.raiseDepth = 0) ∨
        (s.raiseDepth ≤ m.maxIterations ∧ ∃ k, cntSelf s'.queue = cntSelf rest + k ∧
-          (s.raiseDepth + k ≤ s'.raiseDepth ∨ (cntSelf s'.queue = 0 ∧ s'.raiseDepth = 0)))) ∧
+          (s.raiseDepth + k ≤ s'.raiseDepth ∨ (cntSelf s'.queue = 0 ∧ s'.raiseDepth = 0))) ∨
+       (m.maxIterations < s.raiseDepth ∧ f = 0 ∧ cntSelf s'.queue ≤ s'.raiseDepth)) ∧
       (s'.status = s.status ∨ s'.status = "done") := by
-    rcases hc with ⟨hd, hq', hd', hs'⟩ | ⟨hd, l, hl, hq', hdd, _, hs'⟩
+    rcases hc with ⟨hd, _, hq', hd', hs'⟩ | ⟨hd, hself, l, hl, hq', hdd, _, hs'⟩ | ⟨hd, l, hl, hq', hdd, _, hs'⟩
     · rw [hq']
       exact ⟨(cnt_purge rest).2, Or.inl ⟨hd, (cnt_purge rest).1, hd'⟩, Or.inl hs'⟩
     · obtain ⟨c1, c2⟩ := cntSelf_all_true hl
-      refine ⟨by rw [hq', cntExt_append, c2]; rfl, Or.inr ⟨hd, l.length, ?_, hdd⟩, hs'⟩
+      refine ⟨by rw [hq', cntExt_append, c2, (cnt_purge rest).2]; rfl, Or.inr (Or.inr ⟨hd, hf0 hself, ?_⟩), hs'⟩
+      rcases hdd with h | ⟨h1, h2⟩
+      · rw [hq', cntSelf_append, c1, (cnt_purge rest).1]; omega
+      · omega
+    · obtain ⟨c1, c2⟩ := cntSelf_all_true hl
+      refine ⟨by rw [hq', cntExt_append, c2]; rfl, Or.inr (Or.inl ⟨hd, l.length, ?_, hdd⟩), hs'⟩
       rw [hq', cntSelf_append, c1]
   obtain ⟨k1, k2, k3⟩ := key
   obtain ⟨a1, a2⟩ := pot_arith m.maxIterations f (cntSelf rest) (cntExt rest) s.raiseDepth
@@ -578,7 +627,7 @@ theorem asyncDrain_running_queue_nil (m : Machine) (u : UEnv) :
     · cases hq : s.queue with
       | nil => rw [asyncDrain_queue_nil m u _ hq]; exact hq
       | cons q rest =>
-        have : asyncDrain m u (F + 1) s = asyncDrain m u F (asyncStep m u q.ev { s with queue := rest }) := by
+        have : asyncDrain m u (F + 1) s = asyncDrain m u F (asyncStep m u q { s with queue := rest }) := by
           simp [asyncDrain, hr, hq]
         rw [this] at h ⊢
         exact ih _ h
@@ -608,20 +657,13 @@ theorem AInv_push_ext {s : St} (hI : AInv s) (e : Ev) : AInv { s with queue := s
   rw [cntSelf_append]
   simp [cntSelf]; exact hI
 
-/-- the two phases of `start()` before the run loop takes over -/
-def asyncStartEntered (m : Machine) (u : UEnv) (s : St) : St :=
-  let s := { s with status := "running", ctx := m.ctx0 }
-  let (es, e) := startEntries m
-  let s := es.foldl (enterOne (hooksAsyncStart u m) .async m (some "___xstate_statemachine_init___")) s
-  match e with | some err => s.fail err | none => s
-def asyncStartSettled (m : Machine) (u : UEnv) (s : St) : St :=
-  transientLoop (hooksAsyncStart u m) .async m u m.maxIterations (asyncStartEntered m u s)
-
+/-- `asyncStart` by the two phases of `start()` before the run loop takes over (`asyncStartEntered`,
+    `asyncStartSettled`: defined with the model) -/
 theorem asyncStart_eq (m : Machine) (u : UEnv) (s : St) :
     asyncStart m u s =
       if (asyncStartEntered m u s).err.isSome then { asyncStartEntered m u s with status := "stopped" }
       else if (asyncStartSettled m u s).err.isSome then { asyncStartSettled m u s with status := "stopped" }
-      else asyncDrain m u (asyncFuel m) (asyncStartSettled m u s) := rfl
+      else asyncDrain m u (asyncFuel m) (asyncStartSettled m u s) := asyncStart_phases m u s
 
 theorem asyncStartSettled_grow (m : Machine) (u : UEnv) (s : St) :
     Grow false { s with status := "running", ctx := m.ctx0 } (asyncStartSettled m u s) := by
@@ -889,32 +931,53 @@ theorem actStep_cut_ignores_nested (h : Hooks) (nested nested' : List ActionRef 
 
 /-! ## 6. events sent while the interpreter is idle are never dropped -/
 
-/-- the processing branch of `asyncStep` (the chain breaker did not trip) -/
-def asyncProcess (m : Machine) (u : UEnv) (e : Ev) (s : St) : St :=
-  let before := s.raiseDepth
-  let s1 := processEvent (hooksAsync u m) .async m u e (emit ("#recv:" ++ e.type) s)
-  let s2 := transientLoop (hooksAsync u m) .async m u m.maxIterations s1
-  if s2.err.isSome then { s2 with err := none, errors := s2.errors + 1 }
-  else if s2.raiseDepth = before && !(s2.queue.any (·.self)) then { s2 with raiseDepth := 0 } else s2
-
-theorem asyncStep_below_bound (m : Machine) (u : UEnv) (e : Ev) (s : St) (h : s.raiseDepth ≤ m.maxIterations) :
-    asyncStep m u e s = asyncProcess m u e s := by
-  unfold asyncStep asyncProcess
+/-- below the bound the dequeued event is processed (`asyncProcess`: defined with the model) -/
+theorem asyncStep_below_bound (m : Machine) (u : UEnv) (q : QEv) (s : St) (h : s.raiseDepth ≤ m.maxIterations) :
+    asyncStep m u q s = asyncProcess m u q.ev s := by
+  unfold asyncStep
   rw [if_neg (by omega)]
 
-theorem asyncStep_above_bound (m : Machine) (u : UEnv) (e : Ev) (s : St) (h : m.maxIterations < s.raiseDepth) :
-    asyncStep m u e s = { s with raiseDepth := 0, queue := s.queue.filter (fun q => !q.self) } := by
+/-- above the bound a SELF-RAISED event is dropped with the rest of its chain … -/
+theorem asyncStep_above_bound_self (m : Machine) (u : UEnv) (q : QEv) (s : St) (h : m.maxIterations < s.raiseDepth)
+    (hq : q.self = true) :
+    asyncStep m u q s = { s with raiseDepth := 0, queue := s.queue.filter (fun q => !q.self) } := by
   unfold asyncStep
-  rw [if_pos h]
+  rw [if_pos h, if_pos hq]; rfl
+
+/-- … an EXTERNAL one is processed, after the purge and with the counter at 0 -/
+theorem asyncStep_above_bound_ext (m : Machine) (u : UEnv) (q : QEv) (s : St) (h : m.maxIterations < s.raiseDepth)
+    (hq : q.self = false) :
+    asyncStep m u q s =
+      asyncProcess m u q.ev { s with raiseDepth := 0, queue := s.queue.filter (fun q => !q.self) } := by
+  unfold asyncStep
+  rw [if_pos h, if_neg (by simp [hq])]; rfl
+
+/-- the state the run loop processes the dequeued event in, if it does: purged when the breaker fired -/
+def asyncBase (m : Machine) (s : St) : St := if s.raiseDepth > m.maxIterations then asyncPurge s else s
+
+/-- **an externally sent event is never dropped**: whatever the counter says, the iteration that dequeues
+    it processes it (`on_event_received`, macrostep, settling) -/
+theorem asyncStep_external (m : Machine) (u : UEnv) (q : QEv) (s : St) (hq : q.self = false) :
+    asyncStep m u q s = asyncProcess m u q.ev (asyncBase m s) := by
+  unfold asyncStep asyncBase
+  split
+  · rw [if_neg (by simp [hq])]
+  · rfl
 
 /-- the interpreter is idle: nothing queued, and the counter is within the bound -/
 def Idle (m : Machine) (s : St) : Prop := s.queue = [] ∧ s.raiseDepth ≤ m.maxIterations
 
-theorem asyncStep_idle_depth (m : Machine) (u : UEnv) (e : Ev) (s0 : St)
-    (hr : (asyncStep m u e s0).status = "running") (hq : (asyncStep m u e s0).queue = []) :
-    (asyncStep m u e s0).raiseDepth ≤ m.maxIterations := by
-  rcases asyncStep_cases m u e s0 with ⟨_, _, hd, _⟩ | ⟨hd, l, _, hq', _, hx, _⟩
+theorem asyncStep_idle_depth (m : Machine) (u : UEnv) (q : QEv) (s0 : St)
+    (hr : (asyncStep m u q s0).status = "running") (hq : (asyncStep m u q s0).queue = []) :
+    (asyncStep m u q s0).raiseDepth ≤ m.maxIterations := by
+  rcases asyncStep_cases m u q s0 with ⟨_, _, _, hd, _⟩ | ⟨_, _, l, _, hq', _, hx, _⟩ | ⟨hd, l, _, hq', _, hx, _⟩
   · omega
+  · rw [hq'] at hq
+    have hl : l = [] := (List.append_eq_nil_iff.1 hq).2
+    subst hl
+    rcases hx hr with h | h
+    · simp at h; omega
+    · omega
   · rw [hq'] at hq
     have hl : l = [] := (List.append_eq_nil_iff.1 hq).2
     subst hl
@@ -943,11 +1006,11 @@ theorem asyncDrain_idle_depth (m : Machine) (u : UEnv) :
     · cases hqs : s.queue with
       | nil => rw [asyncDrain_queue_nil m u _ hqs]; exact h0 hqs
       | cons q rest =>
-        have hstep : asyncDrain m u (F + 1) s = asyncDrain m u F (asyncStep m u q.ev { s with queue := rest }) := by
+        have hstep : asyncDrain m u (F + 1) s = asyncDrain m u F (asyncStep m u q { s with queue := rest }) := by
           simp [asyncDrain, hs, hqs]
         rw [hstep] at hr ⊢
-        by_cases hs1 : (asyncStep m u q.ev { s with queue := rest }).status = "running"
-        · exact ih _ (asyncStep_idle_depth m u q.ev _ hs1) hr
+        by_cases hs1 : (asyncStep m u q { s with queue := rest }).status = "running"
+        · exact ih _ (asyncStep_idle_depth m u q _ hs1) hr
         · rw [asyncDrain_not_running m u F hs1] at hr; exact absurd hr hs1
     · rw [asyncDrain_not_running m u _ hs] at hr; exact absurd hr hs
 
@@ -991,7 +1054,7 @@ theorem asyncSend_at_idle_processes (m : Machine) (u : UEnv) (e : Ev) (s : St) (
   have : asyncFuel m = (10 * m.maxIterations + 49) + 1 := by unfold asyncFuel; omega
   rw [this]
   have hstep : ∀ (F : Nat) (s' : St), s'.status = "running" → s'.queue = [⟨e, false⟩] →
-      asyncDrain m u (F + 1) s' = asyncDrain m u F (asyncStep m u e { s' with queue := [] }) := by
+      asyncDrain m u (F + 1) s' = asyncDrain m u F (asyncStep m u ⟨e, false⟩ { s' with queue := [] }) := by
     intro F s' h1 h2
     rw [asyncDrain, if_neg (by simp [h1])]
     split
@@ -1001,23 +1064,249 @@ theorem asyncSend_at_idle_processes (m : Machine) (u : UEnv) (e : Ev) (s : St) (
       simp only [List.cons.injEq] at h2
       rw [h2.1, h2.2]
   rw [hstep (10 * m.maxIterations + 49) { s with queue := s.queue ++ [⟨e, false⟩] } hs (by simp [hi.1])]
-  exact congrArg _ (asyncStep_below_bound m u e _ hi.2)
+  exact congrArg _ (asyncStep_below_bound m u ⟨e, false⟩ _ hi.2)
 
 /-- the external events of a queue, in order -/
 def extOf (l : List QEv) : List QEv := l.filter (fun q => !q.self)
 
 /-- **queued external events are never discarded by the run loop**: one iteration — tripping or not —
     leaves the external events that were queued exactly as they were, in order (what it appends is
-    self-raised). Only the event just taken off the queue can be lost to the chain breaker. -/
-theorem asyncStep_keeps_queued_external (m : Machine) (u : UEnv) (e : Ev) (s0 : St) :
-    extOf (asyncStep m u e s0).queue = extOf s0.queue := by
+    self-raised). -/
+theorem asyncStep_keeps_queued_external (m : Machine) (u : UEnv) (q : QEv) (s0 : St) :
+    extOf (asyncStep m u q s0).queue = extOf s0.queue := by
   unfold extOf
-  rcases asyncStep_cases m u e s0 with ⟨_, hq, _, _⟩ | ⟨_, l, hl, hq, _, _, _⟩
+  have hnil : ∀ l : List QEv, (∀ q ∈ l, q.self = true) → l.filter (fun q => !q.self) = [] := by
+    intro l hl; rw [List.filter_eq_nil_iff]; intro q hq; simp [hl q hq]
+  rcases asyncStep_cases m u q s0 with ⟨_, _, hq, _, _⟩ | ⟨_, _, l, hl, hq, _, _, _⟩ | ⟨_, l, hl, hq, _, _, _⟩
   · rw [hq, List.filter_filter]; simp
-  · rw [hq, List.filter_append]
-    have : l.filter (fun q => !q.self) = [] := by
-      rw [List.filter_eq_nil_iff]; intro q hq; simp [hl q hq]
-    rw [this, List.append_nil]
+  · rw [hq, List.filter_append, hnil l hl, List.append_nil, List.filter_filter]; simp
+  · rw [hq, List.filter_append, hnil l hl, List.append_nil]
+
+/-! ## 6a. the counter is reset whenever a chain ends — after a FAILED macrostep too -/
+
+theorem any_self_false_of_cntSelf_zero {l : List QEv} (h : cntSelf l = 0) : l.any (fun q => q.self) = false := by
+  induction l with
+  | nil => rfl
+  | cons q l ih =>
+    rw [cntSelf_cons] at h
+    have h1 : q.self = false := by
+      cases hq : q.self with
+      | false => rfl
+      | true => rw [hq] at h; simp at h
+    simp only [List.any_cons, h1, Bool.false_or]
+    exact ih (by omega)
+
+/-- **the chain counter does not leak.** Once an event has been processed (successfully or not) and the
+    machine is still running with no self-raised event queued, the counter is 0. -/
+theorem asyncProcess_counter_zero (m : Machine) (u : UEnv) (e : Ev) (s0 : St)
+    (hr : (asyncProcess m u e s0).status = "running") (hq : cntSelf (asyncProcess m u e s0).queue = 0) :
+    (asyncProcess m u e s0).raiseDepth = 0 := by
+  unfold asyncProcess at hr hq ⊢
+  have G : Grow true (emit ("#recv:" ++ e.type) s0)
+      (transientLoop (hooksAsync u m) .async m u m.maxIterations
+        (processEvent (hooksAsync u m) .async m u e (emit ("#recv:" ++ e.type) s0))) :=
+    (processEvent_grow _ (hooksAsync_grow u m) .async m u e _).trans
+      (transientLoop_grow _ (hooksAsync_grow u m) .async m u _ _)
+  simp only at hr hq ⊢
+  generalize (transientLoop (hooksAsync u m) .async m u m.maxIterations
+        (processEvent (hooksAsync u m) .async m u e (emit ("#recv:" ++ e.type) s0))) = s2 at G hr hq ⊢
+  obtain ⟨⟨l, hql, hl, _, hx⟩, _⟩ := G
+  have hql' : s2.queue = s0.queue ++ l := hql
+  generalize hs3 : (if s2.err.isSome = true then { s2 with err := none, errors := s2.errors + 1 } else s2) = s3
+    at hr hq ⊢
+  have q3 : s3.queue = s2.queue := by rw [← hs3]; split <;> rfl
+  have d3 : s3.raiseDepth = s2.raiseDepth := by rw [← hs3]; split <;> rfl
+  have t3 : s3.status = s2.status := by rw [← hs3]; split <;> rfl
+  have hf := (asyncChainEnd_fields s0.raiseDepth s3)
+  rw [hf.2.2.2.1] at hr
+  rw [hf.2.2.1] at hq
+  have hx' : s2.raiseDepth = s0.raiseDepth + cntSelf l := hx (t3 ▸ hr)
+  have hl0 : cntSelf l = 0 := by
+    rw [q3, hql', cntSelf_append] at hq; omega
+  have hany := any_self_false_of_cntSelf_zero hq
+  unfold asyncChainEnd
+  have hd0 : s3.raiseDepth = s0.raiseDepth := by rw [d3, hx', hl0]; rfl
+  simp only [hd0, hany, decide_true, Bool.not_false, Bool.and_self, if_true]
+
+theorem asyncStep_counter_zero (m : Machine) (u : UEnv) (q : QEv) (s0 : St)
+    (hr : (asyncStep m u q s0).status = "running") (hq : cntSelf (asyncStep m u q s0).queue = 0) :
+    (asyncStep m u q s0).raiseDepth = 0 := by
+  unfold asyncStep at hr hq ⊢
+  split
+  · split
+    · rfl
+    · rename_i h1 h2
+      rw [if_pos h1, if_neg h2] at hr hq
+      exact asyncProcess_counter_zero m u q.ev _ hr hq
+  · rename_i h1
+    rw [if_neg h1] at hr hq
+    exact asyncProcess_counter_zero m u q.ev _ hr hq
+
+/-- **what the loop leaves behind, sharpened:** a run that returns "running" has emptied the queue AND
+    reset the counter — whatever happened on the way (failed macrosteps included) — provided the counter
+    was 0 whenever the queue was empty at the start -/
+theorem asyncDrain_counter_zero (m : Machine) (u : UEnv) :
+    ∀ (F : Nat) (s : St), (s.queue = [] → s.raiseDepth = 0) →
+      (asyncDrain m u F s).status = "running" → (asyncDrain m u F s).raiseDepth = 0 := by
+  intro F
+  induction F with
+  | zero =>
+    intro s h0 hr
+    by_cases hs : s.status = "running"
+    · by_cases hqs : s.queue = []
+      · rw [asyncDrain_queue_nil m u 0 hqs]; exact h0 hqs
+      · have : asyncDrain m u 0 s = { s with status := "HANG" } := by simp [asyncDrain, hs, hqs]
+        rw [this] at hr
+        exact absurd (show ("HANG" : String) = "running" from hr) (by decide)
+    · rw [asyncDrain_not_running m u 0 hs] at hr; exact absurd hr hs
+  | succ F ih =>
+    intro s h0 hr
+    by_cases hs : s.status = "running"
+    · cases hqs : s.queue with
+      | nil => rw [asyncDrain_queue_nil m u _ hqs]; exact h0 hqs
+      | cons q rest =>
+        have hstep : asyncDrain m u (F + 1) s = asyncDrain m u F (asyncStep m u q { s with queue := rest }) := by
+          simp [asyncDrain, hs, hqs]
+        rw [hstep] at hr ⊢
+        by_cases hs1 : (asyncStep m u q { s with queue := rest }).status = "running"
+        · refine ih _ ?_ hr
+          intro hq1
+          exact asyncStep_counter_zero m u q _ hs1 (by rw [hq1]; rfl)
+        · rw [asyncDrain_not_running m u F hs1] at hr; exact absurd hr hs1
+    · rw [asyncDrain_not_running m u _ hs] at hr; exact absurd hr hs
+
+/-- nothing pending and the counter at 0: what every digested `send` and `start()` leave behind -/
+def Quiet (s : St) : Prop := s.queue = [] ∧ s.raiseDepth = 0
+
+theorem asyncSend_quiet (m : Machine) (u : UEnv) (e : Ev) (s : St) (h : s.status = "running" → Quiet s)
+    (hr : (asyncSend m u e s).status = "running") : Quiet (asyncSend m u e s) := by
+  by_cases hs : s.status = "running"
+  · rw [asyncSend_eq m u e s hs] at hr ⊢
+    refine ⟨asyncDrain_running_queue_nil m u _ _ hr, asyncDrain_counter_zero m u _ _ ?_ hr⟩
+    intro hq
+    simp at hq
+  · rw [asyncSend_not_running m u e hs] at hr ⊢
+    exact h hr
+
+theorem asyncStart_quiet (m : Machine) (u : UEnv) (s : St) (hd : s.raiseDepth = 0)
+    (hr : (asyncStart m u s).status = "running") : Quiet (asyncStart m u s) := by
+  rw [asyncStart_eq] at hr ⊢
+  split at hr
+  · exact absurd (show ("stopped" : String) = "running" from hr) (by decide)
+  · split at hr
+    · exact absurd (show ("stopped" : String) = "running" from hr) (by decide)
+    · rename_i h1 h2
+      rw [if_neg h1, if_neg h2]
+      refine ⟨asyncDrain_running_queue_nil m u _ _ hr, asyncDrain_counter_zero m u _ _ ?_ hr⟩
+      intro _
+      obtain ⟨⟨l, _, hl, _, hx⟩, _⟩ := asyncStartSettled_grow m u s
+      by_cases hs1 : (asyncStartSettled m u s).status = "running"
+      · have := hx hs1
+        rw [(cntSelf_all_false hl).1] at this
+        have e0 : ({ s with status := "running", ctx := m.ctx0 } : St).raiseDepth = s.raiseDepth := rfl
+        omega
+      · rw [asyncDrain_not_running m u _ hs1] at hr; exact absurd hr hs1
+
+/-- **whole runs: the counter never leaks from one command into the next.** After `start()` and after
+    each of any sequence of events (each sent once the previous `send` has been digested) a running
+    interpreter has an empty queue and the counter at 0. -/
+theorem async_run_quiet (m : Machine) (u : UEnv) (evs : List Ev) :
+    (evs.foldl (cmd .async m u) (asyncStart m u {})).status = "running" →
+      Quiet (evs.foldl (cmd .async m u) (asyncStart m u {})) := by
+  have h0 : (asyncStart m u {}).status = "running" → Quiet (asyncStart m u {}) :=
+    fun hr => asyncStart_quiet m u {} rfl hr
+  generalize asyncStart m u {} = s0 at h0
+  induction evs generalizing s0 with
+  | nil => exact h0
+  | cons e evs ih =>
+    simp only [List.foldl_cons]
+    apply ih
+    intro hr
+    exact asyncSend_quiet m u e { s0 with err := none } h0 hr
+
+/-! ## 6c. a chain no longer than the bound is never cut -/
+
+/-- the number of events the machine sends ITSELF while `e` is processed in `s` (every zero-delay
+    delivery to itself made while `_processing` is set increments `_raise_depth`) -/
+def selfSendsOf (m : Machine) (u : UEnv) (e : Ev) (s : St) : Nat := (asyncProcessed m u e s).raiseDepth - s.raiseDepth
+
+/-- twin of `asyncDrain`: the number of iterations in which the chain breaker fired -/
+def asyncTrips (m : Machine) (u : UEnv) : Nat → St → Nat
+  | 0, _ => 0
+  | fuel + 1, s =>
+    if s.status ≠ "running" then 0 else
+    match s.queue with
+    | [] => 0
+    | q :: rest =>
+      (if s.raiseDepth > m.maxIterations then 1 else 0) + asyncTrips m u fuel (asyncStep m u q { s with queue := rest })
+
+/-- twin of `asyncDrain`: the number of events the machine sent itself, over all processed events -/
+def asyncSelfSends (m : Machine) (u : UEnv) : Nat → St → Nat
+  | 0, _ => 0
+  | fuel + 1, s =>
+    if s.status ≠ "running" then 0 else
+    match s.queue with
+    | [] => 0
+    | q :: rest =>
+      (if s.raiseDepth > m.maxIterations ∧ q.self = true then 0
+       else selfSendsOf m u q.ev (asyncBase m { s with queue := rest }))
+        + asyncSelfSends m u fuel (asyncStep m u q { s with queue := rest })
+
+theorem asyncProcess_depth_le (m : Machine) (u : UEnv) (e : Ev) (s : St) :
+    (asyncProcess m u e s).raiseDepth ≤ s.raiseDepth + selfSendsOf m u e s := by
+  have G : Grow true (emit ("#recv:" ++ e.type) s) (asyncProcessed m u e s) :=
+    (processEvent_grow _ (hooksAsync_grow u m) .async m u e _).trans
+      (transientLoop_grow _ (hooksAsync_grow u m) .async m u _ _)
+  obtain ⟨⟨l, _, _, hd, _⟩, _⟩ := G
+  have hd' : s.raiseDepth ≤ (asyncProcessed m u e s).raiseDepth := by
+    have : s.raiseDepth + cntSelf l ≤ (asyncProcessed m u e s).raiseDepth := hd
+    omega
+  rw [asyncProcess_eq]
+  unfold selfSendsOf
+  generalize hs3 : (if (asyncProcessed m u e s).err.isSome = true then
+      { asyncProcessed m u e s with err := none, errors := (asyncProcessed m u e s).errors + 1 }
+    else asyncProcessed m u e s) = s3
+  have d3 : s3.raiseDepth = (asyncProcessed m u e s).raiseDepth := by rw [← hs3]; split <;> rfl
+  unfold asyncChainEnd
+  split
+  · show 0 ≤ _; omega
+  · omega
+
+/-- **chains shorter than the bound run to their natural end (async).** If the counter at the start plus
+    the number of events the machine sends itself during this run of the loop does not exceed
+    `maxIterations`, the chain breaker never fires. -/
+theorem short_chain_not_cut (m : Machine) (u : UEnv) :
+    ∀ (F : Nat) (s : St), s.raiseDepth + asyncSelfSends m u F s ≤ m.maxIterations → asyncTrips m u F s = 0 := by
+  intro F
+  induction F with
+  | zero => intro s _; rfl
+  | succ F ih =>
+    intro s h
+    simp only [asyncSelfSends] at h
+    simp only [asyncTrips]
+    split
+    · rfl
+    · rename_i hrun
+      simp only [hrun, if_false] at h
+      split
+      · rfl
+      · rename_i q rest hq
+        rw [hq] at h
+        simp only at h
+        have hd : ¬ s.raiseDepth > m.maxIterations := by omega
+        have hd' : ¬ (s.raiseDepth > m.maxIterations ∧ q.self = true) := fun hh => hd hh.1
+        rw [if_neg hd, Nat.zero_add]
+        rw [if_neg hd'] at h
+        have hb : asyncBase m { s with queue := rest } = { s with queue := rest } := by
+          unfold asyncBase; rw [if_neg hd]
+        rw [hb] at h
+        have hstep : asyncStep m u q { s with queue := rest } = asyncProcess m u q.ev { s with queue := rest } :=
+          asyncStep_below_bound m u q _ (by show s.raiseDepth ≤ _; omega)
+        have hle := asyncProcess_depth_le m u q.ev { s with queue := rest }
+        rw [← hstep] at hle
+        apply ih
+        have : ({ s with queue := rest } : St).raiseDepth = s.raiseDepth := rfl
+        omega
 
 /-! ## 6b. `send` / `start()` / whole runs never hang -/
 
